@@ -223,22 +223,26 @@ func (g *Generator) convertScalarField(field *protogen.Field) *base.SchemaProxy 
 	// Add field examples if available
 	if examples := annotations.GetFieldExamples(field); len(examples) > 0 {
 		// Set the first example as the default example
-		schema.Example = &yaml.Node{
-			Kind:  yaml.ScalarNode,
-			Value: examples[0],
-		}
+		schema.Example = exampleNode(examples[0])
 
 		// Add all examples using OpenAPI 3.1 examples array format
 		schema.Examples = make([]*yaml.Node, len(examples))
 		for i, example := range examples {
-			schema.Examples[i] = &yaml.Node{
-				Kind:  yaml.ScalarNode,
-				Value: example,
-			}
+			schema.Examples[i] = exampleNode(example)
 		}
 	}
 
 	return base.CreateSchemaProxy(schema)
+}
+
+// exampleNode is the YAML scalar of one example value. A blank example is an empty string:
+// without a tag the renderer takes the empty scalar for a missing value and fails.
+func exampleNode(value string) *yaml.Node {
+	node := &yaml.Node{Kind: yaml.ScalarNode, Value: value}
+	if value == "" {
+		node.Tag = "!!str"
+	}
+	return node
 }
 
 // convertEnumField converts a protobuf enum field to an OpenAPI schema.
